@@ -161,6 +161,12 @@ func (g *inputGen) tok() token {
 			t = append(t[:at:at], append([]byte{"aZ ~x"[r.Intn(5)]}, t[at:]...)...)
 		}
 		return token{"tail", t}
+	case k < 6 && g.mouse && r.Intn(8) == 0:
+		// reports with a sign or a field in the wrong place: not mouse reports, their bytes are input like any other
+		// (and negative coordinates, which are)
+		bad := []string{"\x1b[<0;5-;7M", "\x1b[<0;--5;7M", "\x1b[<-;5;7M", "\x1b[-<0;5;7M", "\x1b[<0;-5;-7M", "\x1b[<0;5;7;9M", "\x1b[<0;5M",
+			"\x1b[<0;5;7-M", "\x1b[<1-2;5;7M", "\x1b[<-0;-0;-0m"}
+		return token{"tail", []byte(bad[r.Intn(len(bad))])}
 	case k < 6 && len(g.seqs) > 0:
 		return token{"key", []byte(g.seqs[r.Intn(len(g.seqs))])}
 	case k < 8 && len(g.seqs) > 0: // Alt-prefixed key
